@@ -395,7 +395,7 @@ func c30Chunks(ps []string, n int) [][]string {
 func init() {
 	eng.Register(&eng.Check{
 		ID: "C30", Level: "exploration", HangBound: 900 * time.Second,
-		QuickBudget: 110 * time.Second, ThoroughBudget: 24 * time.Minute,
+		QuickBudget: 400 * time.Second, ThoroughBudget: 24 * time.Minute,
 		Rule: "string (XML metacharacters, quote break-outs, entity/CDATA/comment/PI openers, C0 control characters, U+007F/0085/2028/FFFE/FFFF/FEFF, lone surrogate and invalid UTF-8 bytes; each carrying a unique marker) x injection site (a D2 template placing the string as shape/connection/arrowhead label, tooltip, link, object id, class name, UML/SQL member, colour and gradient part, near, icon, code block, board name, legend, theme override, markdown) x render-option set (default; every single option and every pair of {sketch, dark theme, terminal theme, appendix, pad, scale, center, no-xml-tag, salt}); compiled+laid out through d2lib.Compile (dagre), rendered by d2svg.Render (+appendix.Append), every SVG scanned by the strict XML oracle and compared with the vocabulary of the same template rendered with harmless strings. Oracle 'unit' = one site x one compile variant x a chunk of strings x all option sets of the phase; every failure it finds is re-judged alone by oracle 'one' (site, string, option set) which names the mechanism and the smallest failing option subset. non-trivial = at least one SVG was produced and scanned",
 		Assumptions: []string{
 			"well-formedness = encoding/xml strict tokenizer plus tag nesting, single root, unique attributes, no '<' in attribute values, declared namespace prefixes; DTD validity and SVG schema conformance are not checked",
